@@ -146,6 +146,15 @@ func checkMarshal(t *verifrt.T, v interface{}, ref []byte) {
 		ind2, _ := MarshalIndent(v, ">", "\t")
 		t.Assert("colour-indent-succeeds", err6 == nil)
 		t.Assert("colour-indent-empty-scheme-equals-indent", verifref.BytesEq(coli, ind2))
+		if t.ParamOr("UNORD", 0) == 1 {
+			// values whose maps hold at most one entry: UnorderedMap can only change the order
+			un, err7 := MarshalWithOption(v, UnorderedMap())
+			t.Assert("unordered-equals-marshal", verifrt.And(err7 == nil, verifref.BytesEq(un, out)))
+			uni, err8 := MarshalIndentWithOption(v, ">", "\t", UnorderedMap())
+			t.Assert("unordered-indent-equals-indent", verifrt.And(err8 == nil, verifref.BytesEq(uni, ind2)))
+			unic, err9 := MarshalIndentWithOption(v, ">", "\t", UnorderedMap(), Colorize(&ColorScheme{}))
+			t.Assert("unordered-colour-indent-equals-indent", verifrt.And(err9 == nil, verifref.BytesEq(unic, ind2)))
+		}
 	}
 }
 
